@@ -14,7 +14,7 @@ def SHARED_index(path):
 
 
 class Obs:
-    __slots__ = ('stream', 'resp', 'seen', 'seam_created', 'hang', 'handler_exc', 'environ')
+    __slots__ = ('stream', 'resp', 'seen', 'seam_created', 'hang', 'handler_exc', 'environ', 'via_copy')
 
 
 def _canon_value(x):
@@ -115,7 +115,7 @@ def _canon_files_round_robin(req, k):
 
 def body_request(wire, sched, *, B, M=None, cl=None, chunked=False, ctype=None, tempmode='real',
                  touch=('body',), endless=None, max_calls=None, propagate=True, method='POST', retry=False, cfgvia=None, stages=None,
-                 keep_alive=False, errors_map=None):
+                 keep_alive=False, errors_map=None, via_copy=None):
     """Serve one request whose body stream is SimStream(wire, sched)."""
     import ombott
     o = Obs()
@@ -138,6 +138,13 @@ def body_request(wire, sched, *, B, M=None, cl=None, chunked=False, ctype=None, 
     if cfgvia is None:
         # both ways of configuring an application must behave alike; which one a run uses is a pure function of its wire
         cfgvia = 'setup' if zlib.crc32(bytes(wire[:256])) % 4 == 0 else 'ctor'
+
+    if via_copy is None:
+        # an application that works on `request.copy()` from the start (taken before the body was touched) must
+        # meet the same limits, thresholds and error mapping; which runs do is a pure function of the wire
+        via_copy = zlib.crc32(bytes(wire[:128]) + b'copy') % 6 == 0
+    o.via_copy = via_copy
+    the_copy = []
 
     def make_app():
         if cfgvia == 'setup':
@@ -224,6 +231,10 @@ def body_request(wire, sched, *, B, M=None, cl=None, chunked=False, ctype=None, 
 
         def run_ops(ops, stage):
             req = app.request
+            if via_copy:
+                if not the_copy:
+                    the_copy.append(req.copy())
+                req = the_copy[0]
             try:
                 for t in ops:
                     do_op(req, t)
@@ -284,12 +295,13 @@ def body_request(wire, sched, *, B, M=None, cl=None, chunked=False, ctype=None, 
         o.resp = call_app(app, env)
         o.seam_created = seam.created
         # the handler never touches the body after the request: close what was opened
-        wi = env.get('wsgi.input')
-        if wi is not stream and hasattr(wi, 'close'):
-            try:
-                wi.close()
-            except Exception:
-                pass
+        for e_ in [env] + [r.environ for r in the_copy]:
+            wi = e_.get('wsgi.input')
+            if wi is not stream and hasattr(wi, 'close'):
+                try:
+                    wi.close()
+                except Exception:
+                    pass
     if o.hang is None and isinstance(getattr(o.resp, 'escaped', None), SimHang):
         o.hang = o.resp.escaped
     return o
